@@ -186,6 +186,9 @@ structure Env where
   infoOn : Bool := true        -- the logger's level lets `Info` through
   critOn : Bool := true        -- … `Critical`
   waitOnExit : Bool := true    -- `wait_for_queues_to_empty_before_exit`
+  /-- the handler's wait for its flush request ends when the backend thread is gone (candidate repair of F27,
+      `findings/F27_candidate_repair.diff`; extracted: `flushEndsWhenBackendGone`; the current code waits for ever) -/
+  flushGivesUp : Bool := false
   deriving DecidableEq, Repr, Inhabited
 
 def Fe.log (f : Fe) (x : Item) : Fe := { f with queue := f.queue ++ [x] }
@@ -202,7 +205,10 @@ def exec (e : Env) (sig : Sig) : List Action → (restored pending : Bool) → F
   | .setAlarm :: rest, r, p, f => exec e sig rest r p f
   | .logNotice :: rest, r, p, f => exec e sig rest r p (if e.infoOn then f.log .notice else f)
   | .logCritical :: rest, r, p, f => exec e sig rest r p (if e.critOn then f.log .critical else f)
-  | .flush :: rest, r, p, f => if e.backendRunning then exec e sig rest r p f.drain else (f, .hangs)
+  | .flush :: rest, r, p, f =>
+    if e.backendRunning then exec e sig rest r p f.drain
+    else if e.flushGivesUp then exec e sig rest r p f   -- nobody serves it: the request stays queued, the handler goes on
+    else (f, .hangs)
   | .exitSuccess :: _, _, _, f =>
     -- `exit` → the `atexit` handler → `stop_backend_thread` → `_exit` drain (if enabled) → join
     (if e.backendRunning && e.waitOnExit then f.drain else f, .exit0)
@@ -217,6 +223,37 @@ def exec (e : Env) (sig : Sig) : List Action → (restored pending : Bool) → F
 /-- the handler's notices, as far as the logger's level lets them through -/
 def notices (e : Env) (s : Sig) : List Item :=
   (if e.infoOn then [.notice] else []) ++ (if s.graceful || !e.critOn then [] else [.critical])
+
+/-! ## a process-directed signal (`kill(pid, sig)`) with several threads
+
+The kernel hands a process-directed signal to *one* thread that does not block it (Linux tries the main thread
+first; any other choice is allowed). The handler distinguishes the receiving thread only by
+`get_thread_id() == backend_thread_id`; whether that thread has a thread context (has logged or preallocated) is
+invisible to it — its first log call creates the context inside the handler. -/
+
+/-- class of the thread the handler runs on -/
+inductive Receiver
+  | logged        -- a frontend thread that has logged before (the premise of the property)
+  | neverLogged   -- a frontend thread without a thread context: nothing of it is queued or written
+  | backend       -- the backend thread
+  deriving DecidableEq, Repr, Inhabited
+
+structure Thr where
+  cls : Receiver
+  blocked : Bool      -- the signal is blocked in this thread's mask
+  deriving DecidableEq, Repr, Inhabited
+
+/-- the threads the kernel may choose -/
+def candidates (ts : List Thr) : List Receiver := (ts.filter fun t => !t.blocked).map (·.cls)
+
+/-- what the handler sees on a thread of class `r` while a backend started with the handler runs (first entrant,
+    a logger exists, re-raise on) -/
+def Receiver.ctx (r : Receiver) (s : Sig) (pr : Bool) : Ctx :=
+  { sig := s, first := true, parkReturns := pr, backendIdSet := true, onBackend := r == .backend, hasLogger := true, reraise := true }
+
+/-- the handler on the receiving thread; `own`: that thread's queue and lines -/
+def killOutcome (e : Env) (s : Sig) (pr : Bool) (r : Receiver) (own : Fe) : Fe × Outcome :=
+  exec e s (onSignal (r.ctx s pr)) false false own
 
 /-! ## start / stop life-cycle -/
 
